@@ -59,7 +59,8 @@ def chunks_of(case):
 
 
 def impl_run(case):
-    """-> (one-shot result, incremental result, type problem or None); a result is ["OK", cps] or ["ERR", enum]"""
+    """-> (one-shot result, joined incremental result, type problem or None, trace); a result is ["OK", cps] or
+    ["ERR", enum]; trace = the result of every incremental call up to and including the first one that raises"""
     import css_parser.codec  # noqa: F401  (registers the codec)
     kw = kw_of(case)
     chunks = chunks_of(case)
@@ -67,6 +68,7 @@ def impl_run(case):
     whole = (b"" if dec else "").join(chunks)
     want = str if dec else bytes
     typ = None
+    trace = []
     try:
         f = codecs.getdecoder("css") if dec else codecs.getencoder("css")
         r = f(whole, **kw)[0]
@@ -86,10 +88,12 @@ def impl_run(case):
                 typ = typ or "incremental call %d returned %s %r" % (i, type(r).__name__, r)
                 r = want() if not r else r
             outs.append(r)
+            trace.append(["OK", cps(r)])
         inc = ["OK", cps(want().join(outs))]
     except Exception as e:  # noqa
         inc = ["ERR", exc_enum(e)]
-    return one, inc, typ
+        trace.append(["ERR", exc_enum(e)])
+    return one, inc, typ, trace
 
 
 def impl_fn(case):
@@ -114,6 +118,34 @@ def model_line(case):
     if case["k"] == "D":
         return "D|%s|%d|%s" % (enc, 1 if case.get("force", True) else 0, cs)
     return "E|%s|%s" % (enc, cs)
+
+
+def model_trace(txt):
+    return [model_res(x) for x in txt.split(" ; ")]
+
+
+def norm_res(r):
+    return [r[0], r[1].split()]
+
+
+def collapse(trace):
+    out = []
+    for r in trace:
+        if r[0] != "OK":
+            return [r[0], r[1].split()]
+        out += r[1].split()
+    return ["OK", out]
+
+
+def compare_model(line, impl):
+    """model line '<one-shot> # <trace>' against the implementation's (one, joined, typ, trace); None when equal"""
+    m_one, m_tr = line.split(" # ")
+    m_one, m_tr = model_res(m_one), model_trace(m_tr)
+    one, inc, _, tr = impl
+    if norm_res(m_one) != norm_res(one) or [norm_res(x) for x in m_tr] != [norm_res(x) for x in tr] \
+            or collapse(m_tr) != norm_res(inc):
+        return {"impl": [one, tr], "model": [m_one, m_tr]}
+    return None
 
 
 def model_res(txt):
@@ -503,7 +535,7 @@ def run(ctx):
     # --- function-level correspondence of the regenerated functions
     fcases = fn_cases(ctx, thorough)
     fimpl = ctx.pool_map(impl_fn, fcases, procs=6, chunksize=2048)
-    mism_fn, mism, skipped_names, compared = [], [], 0, 0
+    mism_fn, mism, skipped_names, compared, r_compared = [], [], 0, 0, 0
     if binary:
         flines = []
         for c in fcases:
@@ -525,18 +557,30 @@ def run(ctx):
         skipped_names = len(cases) - len(idx)
         out = ctx.run_binary(binary, [model_line(cases[i]) for i in idx], shards=6)
         for i, o in zip(idx, out):
-            m_one, m_inc = [model_res(x) for x in o.split("#")]
-            one, inc, _ = impl[i]
+            d = compare_model(o, impl[i])
             compared += 1
-            if [m_one[0], m_one[1].split()] != [one[0], one[1].split()] or [m_inc[0], m_inc[1].split()] != [inc[0], inc[1].split()]:
-                mism.append((cases[i], {"impl": [one, inc], "model": [m_one, m_inc]}))
+            if d:
+                mism.append((cases[i], d))
+        # the codec table whose hypotheses are PROVED in Coq (closed theorem incdec_chunking_concrete): same cases, restricted
+        # to encoding names of that table (or unknown to CPython)
+        ridx = [i for i in idx if cases[i]["k"] == "D" and r_scope(cases[i])]
+        rout = ctx.run_binary(binary, ["R" + model_line(cases[i])[1:] for i in ridx], shards=6)
+        rmism = []
+        for i, o in zip(ridx, rout):
+            d = compare_model(o, impl[i])
+            if d:
+                rmism.append((cases[i], d))
+        r_compared = len(ridx)
+        if rmism:
+            ctx.broken("correspondence", "IncrementalDecoder/decode vs the closed instance CodecInstances.r_*",
+                       "%d of %d cases differ; first: %s" % (len(rmism), len(ridx), json.dumps(rmism[:2])[:1800]))
         if mism:
             ctx.broken("correspondence", "_codec3 decode/encode/IncrementalDecoder/IncrementalEncoder vs CssV.Codec",
                        "%d of %d cases differ; first: %s" % (len(mism), compared, json.dumps(mism[:2])[:1800]))
 
     # --- property-level oracle on the implementation
     nontrivial, hist = set(), {}
-    for c, (one, inc, typ) in zip(cases, impl):
+    for c, (one, inc, typ, _tr) in zip(cases, impl):
         if one[0] == "OK" and len(c["chunks"]) >= 2 and one[1]:
             nontrivial.add((c["k"], c.get("enc"), c.get("force", True), "".join(map(str, c["chunks"]))))
         hist[one[0] + ":" + (one[1] if one[0] == "ERR" else "")] = hist.get(one[0] + ":" + (one[1] if one[0] == "ERR" else ""), 0) + 1
@@ -572,7 +616,7 @@ def run(ctx):
     for f in ctx.findings:
         if f.get("status") == "open":
             w = f["witness"]
-            one, inc, typ = impl_run(w)
+            one, inc, typ, _tr = impl_run(w)
             for d, tag in oracle(w, one, inc, typ):
                 ctx.violation(d, w, sig_text=tag + " " + json.dumps({"enc": w.get("enc"), "force": w.get("force", True)}))
 
@@ -584,6 +628,7 @@ def run(ctx):
         "class_cases": len(cases), "function_cases": len(fcases), "inverse_cases": len(inv_cases),
         "codec_hypothesis_cases": len(hyp_cases),
         "model_compared": compared, "outside_model_codec_table": skipped_names,
+        "closed_instance_compared": r_compared,
         "distinct_nontrivial": len(nontrivial),
         "rule": "structured part (%d cases): byte strings / texts with complete, truncated, mis-named @charset rules x 10 "
                 "encodings x BOMs x raw BOM/charset prefixes and malformed sequences x encoding/force arguments x ALL cut points "
@@ -628,6 +673,33 @@ def model_scope(c):
     return all(same_codec_knowledge(n) for n in names) and not (c.get("enc") is not None and is_css_name(c["enc"]))
 
 
+R_NAMES = {"utf-8", "utf-16-le", "utf-16-be", "utf-32-le", "utf-32-be", "latin-1", "ascii"}
+
+
+def case_names(c):
+    names = [c.get("enc")]
+    if c["k"] == "D":
+        whole = b"".join(chunks_of(c))
+        names.append(ref_detect_bytes(whole)[0])
+        m = RULE.match(whole.decode("latin-1"))
+        if m:
+            names.append(m.group(1))
+    return [n for n in names if n is not None]
+
+
+def r_scope(c):
+    """every encoding name that can be looked up is in the table of CodecInstances.r_init, unknown to CPython, or 'css'"""
+    for n in case_names(c):
+        if is_css_name(n):
+            continue
+        k = model_knows(n)
+        if k is None and python_knows(n) is None:
+            continue
+        if k not in R_NAMES:
+            return False
+    return True
+
+
 def hunt(ctx, budget):
     """look for an input on which the property fails on the implementation (not covered by a known finding)"""
     t0 = time.time()
@@ -652,7 +724,7 @@ def hunt(ctx, budget):
                 batch.append({"k": "E", "enc": rng.choice([None, None, "utf-8", "latin-1", "utf-8-sig", "utf-16"]),
                               "chunks": split(t, p)})
         res = ctx.pool_map(impl_run, batch, procs=6, chunksize=256)
-        for c, (one, inc, typ) in zip(batch, res):
+        for c, (one, inc, typ, _tr) in zip(batch, res):
             for d, tag in oracle(c, one, inc, typ):
                 sig = tag + " " + json.dumps({"enc": c.get("enc"), "force": c.get("force", True)})
                 if not ctx.match_known(d + " :: " + sig):
@@ -663,7 +735,7 @@ def hunt(ctx, budget):
 def shrink(case, d):
     """fewer cuts first, then shorter input"""
     def fails(c):
-        one, inc, typ = impl_run(c)
+        one, inc, typ, _tr = impl_run(c)
         return any(x[0] == d for x in oracle(c, one, inc, typ))
     best = dict(case)
     chunks = chunks_of(best)
@@ -703,7 +775,7 @@ def replay(ctx, path):
             print("replay inverse %r enc=%r -> %s" % (w["text"], w.get("enc"), d or "holds"))
             bad += bool(d)
             continue
-        one, inc, typ = impl_run(w)
+        one, inc, typ, _tr = impl_run(w)
         ds = [d for d, tag in oracle(w, one, inc, typ) if not ctx.match_known(
             d + " :: " + tag + " " + json.dumps({"enc": w.get("enc"), "force": w.get("force", True)}))]
         print("replay %s enc=%r force=%r chunks=%r\n  one-shot=%r\n  chunked =%r\n  -> %s" % (
